@@ -345,3 +345,54 @@ def ctor_param_attrs(prog, init, _depth: int = 0):
                 if isinstance(v, ast.Name) and v.id in ps:
                     out.setdefault(v.id, attr)
     return {k: v for k, v in out.items() if k not in reassigned}
+
+
+def mutation_while_iterating(fi):
+    """[(loop, mutating node, container text)]: `for .. in D.items() / D.keys() / D.values() / D` whose body removes from or adds
+    to that same container D (del D[k], D.pop, D.clear, D.remove, D.add, D.append ..) without leaving the loop right afterwards.
+    For a dict or set the next iteration step raises RuntimeError ("changed size during iteration"); for a list elements are skipped.
+    Iterating over a snapshot (list(D.items()), tuple(D), sorted(D), D.copy()) is the accepted idiom and does not match."""
+    out = []
+    for lp in own_nodes(fi.node):
+        if not isinstance(lp, ast.For):
+            continue
+        it = lp.iter
+        if isinstance(it, ast.Call) and isinstance(it.func, ast.Attribute) and it.func.attr in ("items", "keys", "values") and not it.args:
+            cont = it.func.value
+        elif isinstance(it, (ast.Name, ast.Attribute)):
+            cont = it
+        else:
+            continue
+        ctxt = unparse(cont)
+        pm = parent_map(lp)
+        for n in ast.walk(ast.Module(body=lp.body, type_ignores=[])):
+            hit = None
+            if isinstance(n, ast.Delete):
+                for t in n.targets:
+                    if isinstance(t, ast.Subscript) and unparse(t.value) == ctxt:
+                        hit = n
+            elif isinstance(n, ast.Expr) and isinstance(n.value, ast.Call) and isinstance(n.value.func, ast.Attribute) and unparse(n.value.func.value) == ctxt \
+                    and n.value.func.attr in ("pop", "popitem", "clear", "remove", "discard", "add", "append", "insert", "extend", "update", "setdefault"):
+                hit = n
+            elif isinstance(n, ast.Assign) and isinstance(n.value, ast.Call) and isinstance(n.value.func, ast.Attribute) and unparse(n.value.func.value) == ctxt \
+                    and n.value.func.attr in ("pop", "popitem"):
+                hit = n
+            if hit is None:
+                continue
+            # leaving the loop right after the mutation is safe
+            par = pm.get(id(hit))
+            blk = None
+            for fld in ("body", "orelse", "finalbody"):
+                b = getattr(par, fld, None)
+                if isinstance(b, list) and any(x is hit for x in b):
+                    blk = b
+            if par is None and any(x is hit for x in lp.body):
+                blk = lp.body
+            nxt = None
+            if blk is not None:
+                k = [i for i, x in enumerate(blk) if x is hit][0]
+                nxt = blk[k + 1] if k + 1 < len(blk) else None
+            if isinstance(nxt, (ast.Break, ast.Return, ast.Raise)):
+                continue
+            out.append((lp, hit, ctxt))
+    return out
